@@ -79,9 +79,9 @@ PROPS = {
         "repeat-run comparison in one process and across fresh processes, integer and string package names; the Coq model is a function of the provider answers",
         "A Gallina function is deterministic by construction, so the content is that the Rust code is such a function. Every case is run twice in-process (trace and result compared) and the whole case stream is produced a second time by a fresh process with a different environment and compared byte for byte; the model must reproduce every trace from the recorded answers alone. Coq (1 theorem): the model's result depends only on the consumed prefix of the answers.",
         extra={"cross_process": True}),
-    "C12": solver_prop(None, "other",
+    "C12": solver_prop("Props/Properties_C12.v", "other",
         "protocol checker on every recorded callback trace + Coq model that consumes the trace in protocol order",
-        "NOT yet a Coq theorem about the model's consumed trace (planned). Every recorded trace is checked for the six protocol clauses (get_dependencies only right after the choose_version that returned that version, at most once per (p,v); choose_version with a non-empty set identical to the last prioritize set; first query root with the singleton; should_cancel first and between choose_version calls), and the model only accepts traces in which each call is the one it would make.", domains=("solver", "faults")),
+        "Coq (5 theorems, Props/Properties_C12.v): for ANY trace and fuel the calls the model consumes are accepted by the protocol scanner `shape`, from which clauses (1) get_dependencies only right after the choose_version that returned that version, (2) at most once per (p,v), and (5) should_cancel first and between choose_version calls are derived; clauses (3) (set identical to the last prioritize set, non-empty) and (4) (first query = root with the singleton) are NOT proved and are decided by the trace checker. Every recorded trace is checked for the six protocol clauses (get_dependencies only right after the choose_version that returned that version, at most once per (p,v); choose_version with a non-empty set identical to the last prioritize set; first query root with the singleton; should_cancel first and between choose_version calls), and the model only accepts traces in which each call is the one it would make.", domains=("solver", "faults")),
     "C13": solver_prop("Props/Properties_C13.v", "other",
         "fault enumeration: every position of the fault-free trace, every callback kind, plus out-of-set answers; compared with the Coq model",
         "For each base run a fault is injected at every index of its callback trace (error at should_cancel / choose_version / get_dependencies; out-of-set version at choose_version): the faulty trace must equal the fault-free one up to the fault, stop there, and the result must be the matching error variant with the same payload (package and version for get_dependencies) or Failure for an out-of-set version; the model reproduces each faulty run. Coq (2 theorems, Props/Properties_C13.v): the model's result is a function of the consumed trace prefix (no further call matters once the outcome is determined) and every error outcome is explained by an error answer of the matching callback with the same package and version (or an out-of-set answer for Failure).",
